@@ -24,6 +24,8 @@ type PropConfig struct {
 	Trusted   []string          `json:"trusted,omitempty"`
 	Timeout   int               `json:"timeout,omitempty"`
 	Notes     []string          `json:"notes,omitempty"`
+	Select    []string          `json:"select,omitempty"`  // only obligations whose stable name contains a match
+	Exclude   []string          `json:"exclude,omitempty"` // obligations decided by another property's check
 	ExtraCmds []string          `json:"extra_cmds,omitempty"`
 }
 
@@ -78,7 +80,6 @@ func cmdCheck(args []string) {
 	}
 	queryDir, _ = os.MkdirTemp("", "vcgo-"+id+"-")
 	defer os.RemoveAll(queryDir)
-	results := v.runFuncs(pc.Funcs)
 	timeout := 20
 	if pc.Timeout > 0 {
 		timeout = pc.Timeout
@@ -88,27 +89,75 @@ func cmdCheck(args []string) {
 		timeout *= 6
 		allSolvers = true
 	}
-	var qs []*Query
-	for _, r := range results {
-		for _, q := range r.Queries {
-			// obligations listed as known findings are expected to fail: do not wait long for them
-			for _, k := range known {
-				if k.Status == "known" && k.Property == id && matchOb(k.Obligation, stableName(q.Name)) && *tier != "thorough" {
-					q.Timeout = 4
-				}
-			}
-			qs = append(qs, q)
+	// known findings of this property: short timeout for their obligations (they are expected to fail)
+	var shortPats []string
+	for _, k := range known {
+		if k.Status == "known" && k.Property == id && *tier != "thorough" {
+			shortPats = append(shortPats, "(?:"+k.Obligation+")")
 		}
 	}
-	runQueries(qs, timeout, allSolvers, 16)
+	short := strings.Join(shortPats, "|")
+	var recs []FuncRecord
+	var local []string
+	for _, k := range pc.Funcs {
+		con := v.specs.Contracts[k]
+		if con != nil && len(con.Splits) > 0 && len(con.Splits[0].Cases) >= 16 {
+			rs, err := verifyShared(v, *repo, *root, k, *tier, timeout, allSolvers, short)
+			if err != nil {
+				fmt.Println("ENGINE-FAULT", err)
+				os.Exit(2)
+			}
+			recs = append(recs, rs...)
+			continue
+		}
+		local = append(local, k)
+	}
+	if len(local) > 0 {
+		results := v.runFuncs(local)
+		var qs []*Query
+		for _, r := range results {
+			for _, q := range r.Queries {
+				if short != "" && matchOb(short, stableName(q.Name)) {
+					q.Timeout = 4
+				}
+				qs = append(qs, q)
+			}
+		}
+		runQueries(qs, timeout, allSolvers, 16)
+		for _, r := range results {
+			recs = append(recs, toRecord(r))
+		}
+	}
+	// obligations selected for this property
+	selected := func(name string) bool {
+		sn := stableName(name)
+		if len(pc.Select) > 0 {
+			ok := false
+			for _, p := range pc.Select {
+				if matchOb(".*(?:"+p+").*", sn) {
+					ok = true
+				}
+			}
+			if !ok {
+				return false
+			}
+		}
+		for _, p := range pc.Exclude {
+			if matchOb(".*(?:"+p+").*", sn) {
+				return false
+			}
+		}
+		return true
+	}
 
 	type failure struct {
-		q      *Query
+		q      *ObResult
 		reason string
 	}
 	var fails []failure
 	var faults []string
 	discharged := 0
+	total := 0
 	perSolver := map[string]int{}
 	solverSecs := 0.0
 	var samples []any
@@ -117,7 +166,9 @@ func cmdCheck(args []string) {
 	usedCons := map[string]bool{}
 	noCon := map[string]bool{}
 	extNoCon := map[string]bool{}
-	for _, r := range results {
+	autoFr := map[string]bool{}
+	for ri := range recs {
+		r := &recs[ri]
 		if r.Rejected != "" {
 			faults = append(faults, fmt.Sprintf("%s: rejected (outside the supported subset): %s", r.Key, r.Rejected))
 			continue
@@ -135,36 +186,44 @@ func cmdCheck(args []string) {
 		for _, k := range r.ExternNoCon {
 			extNoCon[k] = true
 		}
+		for _, k := range r.AutoFramed {
+			autoFr[k] = true
+		}
 		for _, e := range r.SpecErrs {
 			// a contract that no longer resolves fails all obligations of the function (DESIGN §3.9)
-			fails = append(fails, failure{&Query{Name: r.Key + "/contract-resolves", Func: r.Key, Descr: e}, e})
+			total++
+			fails = append(fails, failure{&ObResult{Name: r.Key + "/contract-resolves", Func: r.Key, Descr: e, Clause: e}, e})
 		}
-		for _, q := range r.Queries {
-			solverSecs += q.Result.Secs
+		for qi := range r.Obs {
+			q := &r.Obs[qi]
+			if q.Kind != "vacuity" && !selected(q.Name) {
+				continue
+			}
+			total++
+			solverSecs += q.Secs
 			switch {
-			case q.Result.Status == "disagree":
-				faults = append(faults, q.Name+": solvers disagree: "+q.Result.Output)
-			case q.Result.Status == "error":
-				faults = append(faults, q.Name+": every solver rejected the query: "+firstLine(q.Result.Output))
+			case q.Status == "disagree":
+				faults = append(faults, q.Name+": solvers disagree: "+q.Output)
+			case q.Status == "error":
+				faults = append(faults, q.Name+": every solver rejected the query: "+firstLine(q.Output))
 			case q.Expect == "notunsat":
-				if q.Result.Status == "unsat" {
+				if q.Status == "unsat" {
 					faults = append(faults, q.Name+": assumptions are contradictory (vacuous proof)")
 				} else {
 					discharged++
-					perSolver["vacuity-"+q.Result.Status]++
+					perSolver["vacuity-"+q.Status]++
 				}
-			case q.Result.Status == "unsat":
+			case q.Status == "unsat":
 				discharged++
-				perSolver[q.Result.Solver]++
+				perSolver[q.Solver]++
 				if len(samples) < 6 {
-					samples = append(samples, map[string]any{"obligation": q.Name, "kind": q.Kind, "at": q.Pos, "clause": clauseOf(q), "solver": q.Result.Solver, "secs": round3(q.Result.Secs), "smt_bytes": len(q.Text)})
+					samples = append(samples, map[string]any{"obligation": q.Name, "kind": q.Kind, "at": q.Pos, "clause": q.Clause, "solver": q.Solver, "secs": round3(q.Secs), "smt_bytes": q.Bytes})
 				}
 			default:
-				fails = append(fails, failure{q, q.Result.Status})
+				fails = append(fails, failure{q, q.Status})
 			}
 		}
 	}
-	total := len(qs)
 	violations := 0
 	var knownHit []string
 	outDir := filepath.Join(*root, "replay", "out", id)
@@ -198,7 +257,7 @@ func cmdCheck(args []string) {
 		}
 		fmt.Printf("VIOLATION property=%s replay=%s%s\n", id, rp, suffix)
 		if *verbose {
-			fmt.Printf("   obligation %s (%s) at %s: %s\n", f.q.Name, f.reason, f.q.Pos, clauseOf(f.q))
+			fmt.Printf("   obligation %s (%s) at %s: %s\n", f.q.Name, f.reason, f.q.Pos, f.q.Clause)
 		}
 	}
 	for _, ft := range faults {
@@ -217,6 +276,9 @@ func cmdCheck(args []string) {
 		}
 		for k := range noCon {
 			assume = append(assume, "repo function called without a contract (results and all heap havoced — over-approximation): "+k)
+		}
+		if len(autoFr) > 0 {
+			assume = append(assume, fmt.Sprintf("%d repo callees without contract are replaced by the frame computed by effect inference (fields written, by static type; closed over static calls; function values resolved only for local closures): %s", len(autoFr), strings.Join(sortedKeys(autoFr), ", ")))
 		}
 		for k := range extNoCon {
 			assume = append(assume, "external function without contract (results arbitrary, repo state untouched): "+k)
@@ -238,7 +300,7 @@ func cmdCheck(args []string) {
 			"property_id": id, "tier": *tier, "seed": seed, "level": "proof",
 			"coverage": map[string]any{
 				"obligations": total - len(knownHit), "discharged": discharged,
-				"checker_cmd": "vcgo check -tier " + *tier + " " + id + "  (z3-new | cvc5 | z3 raced per obligation)",
+				"checker_cmd":  "vcgo check -tier " + *tier + " " + id + "  (z3-new | cvc5 | z3 raced per obligation)",
 				"trusted_base": trusted, "functions_under_contract": funcsUnder,
 				"per_backend": perSolver, "solver_seconds": round3(solverSecs),
 				"known_finding_obligations": knownHit, "bounded": pc.Bounded,
@@ -280,7 +342,7 @@ func matchOb(pat, name string) bool {
 	if pat == name {
 		return true
 	}
-	if strings.ContainsAny(pat, "*^$|") {
+	if strings.ContainsAny(pat, "*^$|\\(?[") {
 		if re, err := regexp.Compile("^(?:" + pat + ")$"); err == nil {
 			return re.MatchString(name)
 		}
@@ -298,15 +360,11 @@ func readJSON(path string, v any) error {
 
 // runReplay tries to find a concrete failing input on the real code for a failed obligation.
 // It always writes the replay file (obligation, solver output, model if any); returns true iff a failing input was found.
-func runReplay(root, repo, id string, pc *PropConfig, q *Query, reason, path string, seed int) bool {
-	rec := map[string]any{"property": id, "obligation": q.Name, "function": q.Func, "at": q.Pos, "clause": clauseOf(q), "solver_status": reason, "solver": q.Result.Solver}
-	out := q.Result.Output
-	if len(out) > 6000 {
-		out = out[:6000]
-	}
-	rec["solver_output"] = out
-	if q.obl != nil && q.Result.Status == "sat" {
-		rec["model_inputs"] = modelInputs(q.obl.Inputs, q.Result.Output)
+func runReplay(root, repo, id string, pc *PropConfig, q *ObResult, reason, path string, seed int) bool {
+	rec := map[string]any{"property": id, "obligation": q.Name, "function": q.Func, "at": q.Pos, "clause": q.Clause, "solver_status": reason, "solver": q.Solver}
+	rec["solver_output"] = q.Output
+	if len(q.Model) > 0 {
+		rec["model_inputs"] = q.Model
 	}
 	found := false
 	fam := ""
